@@ -113,7 +113,7 @@ pub fn spawn_server(bins: &Path, cfg: &SrvCfg, dir: &Path, tag: &str, raw_pairs:
     let out_path = dir.join(format!("{}.stdout", tag));
     let err_path = dir.join(format!("{}.stderr", tag));
     let pairs: Vec<(String, String)> = raw_pairs.unwrap_or_else(|| cfg.pairs().into_iter().map(|(k, v)| (k.to_string(), v)).collect());
-    let mut cmd = Command::new(bins.join("roughenough-server"));
+    let mut cmd = wrapped("RTVERIF_WRAP_SERVER", &bins.join("roughenough-server"));
     for (k, _) in std::env::vars() {
         if k.starts_with("ROUGHENOUGH_") {
             cmd.env_remove(k);
@@ -194,11 +194,13 @@ impl ServerProc {
     pub fn wait_ready(&mut self, pk: &[u8], limit: Duration) -> Result<Duration, String> {
         let t0 = Instant::now();
         let mut rng = Rng::new(self.pid() as u64 ^ 0x5eed);
+        let slow = std::env::var("RTVERIF_WRAP_SERVER").is_ok() || std::env::var("RTVERIF_SLOW_SERVER").is_ok();
+        let limit = if slow { limit * 8 } else { limit };
         loop {
             if let Some(st) = self.exited() {
                 return Err(format!("exited during start-up with {:?}", st));
             }
-            if probe(self.cfg.port, pk, Proto::Classic, &mut rng, Duration::from_millis(150)).is_ok() {
+            if probe(self.cfg.port, pk, Proto::Classic, &mut rng, Duration::from_millis(if slow { 1500 } else { 150 })).is_ok() {
                 return Ok(t0.elapsed());
             }
             if t0.elapsed() > limit {
@@ -277,4 +279,26 @@ pub fn run_with_timeout(mut cmd: Command, limit: Duration) -> std::io::Result<(O
     let out = h1.join().unwrap_or_default();
     let err = h2.join().unwrap_or_default();
     Ok((status.and_then(|s| s.code()), out, err, timed_out))
+}
+
+
+/// Command for `exe`, optionally under a wrapper given in the environment (e.g. valgrind)
+pub fn wrapped(var: &str, exe: &Path) -> Command {
+    match std::env::var(var) {
+        Ok(w) if !w.trim().is_empty() => {
+            let mut parts = w.split_whitespace();
+            let mut c = Command::new(parts.next().unwrap());
+            for p in parts {
+                c.arg(p);
+            }
+            c.arg(exe);
+            c
+        }
+        _ => Command::new(exe),
+    }
+}
+
+/// number of error blocks valgrind memcheck (-q) printed
+pub fn valgrind_errors(text: &str) -> usize {
+    text.lines().filter(|l| l.starts_with("==") && (l.contains("Invalid ") || l.contains("uninitialised") || l.contains("Conditional jump") || l.contains("Source and destination overlap") || l.contains("Mismatched free"))).count()
 }
